@@ -56,3 +56,6 @@ add("C15", "exploration", "runtime monitoring: online trace checker stepping an 
 add("C18", "fault_enumeration", "runtime monitoring: online trace checker over return values and every (offset, bytes) reaching a recording io.WriterAt, with position-/quota-based faults enumerated at every position of the short sections",
     "20 sections x every refusal position F in [base-1, base+n+1] x {partial, all-or-nothing} and every quota in [0,n+1] (660 fault plans) x seeded Write/WriteAt/Seek histories of 1..30 ops; count, error class, bytes and positions on the device, containment, cursor and Size read back after every op; larger sections and AtToWriter sampled.",
     "Fault positions enumerated only for sections of <= 29 bytes; op sequences are seeded-random; negative WriteAt offsets only checked for 'nothing written'.", "DESIGN.md 3/C18")
+add("C19", "exploration", "runtime monitoring with sanitizers: Go race detector over concurrent phases on a shared corpus (3 process configurations), mprotect(PROT_READ) write trap on every shared argument, table/corpus digests via verif hooks, sequential replay + alternate-memory-context replay of every logged call; -N / ASan / go1.26.8 builds",
+    "Each process makes its first library calls concurrently (cold phase), warms up, runs a second concurrent phase including shared library-built objects, then recomputes every logged call sequentially and in different memory contexts; any race report with a library frame, any store into protected corpus memory, any digest change of the package tables or the corpus, any result differing from the sequential one is a violation. 6.4*10^5 concurrent calls (quick) in the release process alone, all 32 universe entries observed overlapping in time.",
+    "Schedules are those the Go scheduler produced in these runs (race reports vary run to run); a racy path no call reaches stays invisible; sanitizers see only executed accesses.", "DESIGN.md 3/C19")
